@@ -3,6 +3,7 @@
 import ast, json, os, subprocess, sys
 sys.path.insert(0, os.path.join(os.path.dirname(os.path.abspath(__file__)), ".."))
 from gcverif.renames import binding_sequence, qualnames
+from gcverif.shapes import describe
 out = {}
 files = subprocess.run("git -C /repo ls-files 'gemclus/*.py' 'gemclus/**/*.py'", shell=True, capture_output=True, text=True).stdout.split()
 for rel in files:
@@ -16,9 +17,9 @@ for rel in files:
     d = {}
     for qn, f in qualnames(tree):
         seq, params = binding_sequence(f)
-        if seq:
-            d[qn] = {"params": sorted(params), "locals": [[n, k] for n, k in seq]}
-    if d:
-        out[rel] = d
+        d[qn] = {"params": sorted(params), "locals": [[n, k] for n, k in seq]}
+        d[qn].update(describe(f))
+    d["__functions__"] = sorted(qn for qn, _ in qualnames(tree))
+    out[rel] = d
 json.dump(out, open(os.path.join(os.path.dirname(os.path.abspath(__file__)), "..", "gcverif", "ref_locals.json"), "w"), indent=0, sort_keys=True)
-print(sum(len(v) for v in out.values()), "functions")
+print(sum(len(v) - 1 for v in out.values()), "functions")
